@@ -71,3 +71,51 @@ theorem C11_findGeodesicsFromVertex {L : Type} (g : G L) (s : Nat) (hs : s < g.s
     simp [List.getD_eq_getElem?_getD, ht]
 
 end BGV
+
+namespace BGV
+open G Bfs
+
+/-- **C11, findAllGeodesicsFromVertex**: one entry per vertex; entry `t` is what
+`findAllGeodesics(source, t)` returns, whenever that call returns normally for every `t`
+(it does on every reachable graph within the model's step budget, `C11_findAllGeodesics`) -/
+theorem C11_findAllGeodesicsFromVertex {L : Type} (g : G L) (s : Nat) (hs : s < g.size)
+    (hwf : adjWF g.adj = true) (hlen : g.adj.length = g.size) (hn : g.size < MAX)
+    (hall : ∀ t, t < g.size → ∃ ps, findAllGeodesics g s t = .ok ps) :
+    ∃ pss, findAllGeodesicsFromVertex g s = .ok pss ∧ pss.length = g.size ∧
+      ∀ t, t < g.size → findAllGeodesics g s t = .ok (pss.getD t []) := by
+  have hfap : findAllVertexPredecessors g s = .ok (allPredRun g.adj s) := by
+    simp [findAllVertexPredecessors, hs, hwf]
+  have hWF : WF g.adj := (adjWF_iff g.adj).1 hwf
+  have hs' : s < g.adj.length := by rw [hlen]; exact hs
+  have hn' : g.adj.length < MAX := by rw [hlen]; exact hn
+  obtain ⟨hinv, _⟩ := AllPred.final_inv g.adj s hWF hs' hn'
+  have hdist0 : (allPredRun g.adj s).dist.getD s MAX = 0 := hinv.src.1
+  have hpss : (allPredRun g.adj s).preds.getD s [] = [] := hinv.src.2.2.1
+  have hexpr : ∀ t, t < g.size →
+      (if (allPredRun g.adj s).dist.getD t MAX ≠ MAX then findMultiplePathsFromPredecessors (allPredRun g.adj s).preds s t else .ok [])
+        = findAllGeodesics g s t := by
+    intro t ht
+    have hr : (decide (s < g.size) && decide (t < g.size)) = true := by simp [hs, ht]
+    by_cases hst : s = t
+    · subst hst
+      have hne : (allPredRun g.adj s).dist.getD s MAX ≠ MAX := by rw [hdist0]; decide
+      rw [if_pos hne]
+      simp [findAllGeodesics, hs, findMultiplePathsFromPredecessors]
+    · simp only [findAllGeodesics, hr, Bool.not_true, Bool.false_eq_true, if_false, hst, hfap, Res.bind]
+  let val : Nat → List (List Nat) := fun t => match findAllGeodesics g s t with | .ok p => p | _ => []
+  have hval : ∀ t, t < g.size → findAllGeodesics g s t = .ok (val t) := by
+    intro t ht
+    obtain ⟨p, hp⟩ := hall t ht
+    simp only [val, hp]
+  refine ⟨(List.range g.size).map val, ?_, by simp, ?_⟩
+  · simp only [findAllGeodesicsFromVertex, hfap, Res.bind]
+    apply seqRes_of_forall
+    intro t ht
+    have ht' : t < g.size := List.mem_range.1 ht
+    rw [hexpr t ht', hval t ht']
+  · intro t ht
+    rw [hval t ht]
+    congr 1
+    simp [List.getD_eq_getElem?_getD, ht]
+
+end BGV
